@@ -221,3 +221,27 @@ package stanza
 //@     invariant[C13] (forall k int :: 0 <= k && k <= rangeindex ==> !ownID(start.Attr[k], start.Name)) ==> v.ID == ""
 //@     invariant[C13] forall k int :: 0 <= k && k <= rangeindex && ownType(start.Attr[k], start.Name) && msgType(start.Attr[k].Value) && (forall j int :: k < j && j <= rangeindex ==> !ownType(start.Attr[j], start.Name)) ==> string(v.Type) == start.Attr[k].Value
 //@     invariant[C13] (forall k int :: 0 <= k && k <= rangeindex ==> !ownType(start.Attr[k], start.Name)) ==> v.Type == "normal"
+
+// C13/C05: Wrap puts exactly the stanza's own start element around exactly the
+// given payload.
+//@ func (IQ).Wrap
+//@   ghost se xml.StartElement
+//@   callsite (IQ).StartElement#1
+//@     assert[C13] arg0 == iq
+//@     after: se = ret0
+//@   callsite mellium.im/xmlstream.Wrap#1
+//@     assert[C13] arg0 == payload && arg1 == se
+//@ func (Message).Wrap
+//@   ghost se xml.StartElement
+//@   callsite (Message).StartElement#1
+//@     assert[C13] arg0 == msg
+//@     after: se = ret0
+//@   callsite mellium.im/xmlstream.Wrap#1
+//@     assert[C13] arg0 == payload && arg1 == se
+//@ func (Presence).Wrap
+//@   ghost se xml.StartElement
+//@   callsite (Presence).StartElement#1
+//@     assert[C13] arg0 == p
+//@     after: se = ret0
+//@   callsite mellium.im/xmlstream.Wrap#1
+//@     assert[C13] arg0 == payload && arg1 == se
